@@ -259,12 +259,28 @@ pub fn build_inputs(a: &Args, rng: &mut Rng) -> Vec<RunInput> {
             v.push(RunInput { text, front: fr, wrap, cfg, dialect: rng.below(4), src: "doc" });
         }
     }
+    if let Some(corpus) = a.get("corpus") {
+        let corpus = crate::util::read_corpus(corpus);
+        for i in 0..a.num("long-tails", 200) as usize {
+            let t = inputs::long_tail_markdown(&corpus, rng);
+            v.push(RunInput { text: t, front: if i % 6 == 5 { "plain".into() } else { "markdown".into() }, wrap: 0, cfg: "all".into(), dialect: i % 4, src: "longtail" });
+        }
+    }
     // token soups: lexically special atoms strung together (every pass meets every other pass's output)
     for i in 0..a.num("soups", 1500) as usize {
         let t = inputs::token_soup(rng);
         let fr = if i % 3 == 0 { rng.pick(&fronts[..]).clone() } else { ["plain", "markdown"][i % 2].to_string() };
         let text = if fr == "plain" || fr == "markdown" { t } else { inputs::wrap_front(&fr, &t, rng) };
         v.push(RunInput { text, front: fr, wrap: if i % 9 == 0 { 3 } else { 0 }, cfg: "all".into(), dialect: i % 4, src: "soup" });
+    }
+    // ... and soups while they are being typed: every prefix, with and without a blank behind it
+    for i in 0..a.num("soup-prefixes", 60) as usize {
+        let t: Vec<char> = inputs::token_soup(rng).chars().collect();
+        for n in 1..=t.len().min(120) {
+            let p: String = t[..n].iter().collect();
+            v.push(RunInput { text: p.clone(), front: ["plain", "markdown"][i % 2].into(), wrap: 0, cfg: "curated".into(), dialect: 0, src: "soup-prefix" });
+            if n % 5 == 0 { v.push(RunInput { text: format!("{p} "), front: "plain".into(), wrap: 0, cfg: "curated".into(), dialect: 0, src: "soup-prefix" }); }
+        }
     }
     for adv in inputs::adversarial() {
         for fr in &fronts {
